@@ -157,7 +157,7 @@ def nontrivial(case: Case, out: str) -> bool:
 
 
 def generate(rng: random.Random, tier: str):
-    n = 10500 if tier == "quick" else 90000
+    n = 18000 if tier == "quick" else 90000
     out = []
     for i in range(n):
         kind = "spiral" if rng.random() < 0.6 else "ranked"
